@@ -1,6 +1,6 @@
 (** C07 — arithmetic evaluates as bash's wrapping 64-bit C-style integer arithmetic.
     Only pinned statements, [exact], and [Print Assumptions]. *)
-From BV Require Import Base.Prelude Base.Wrap64.
+From BV Require Import Base.Prelude Arith.Wrap64.
 
 Theorem c07_add_mod : forall a b, wadd a b mod M64 = (a + b) mod M64.
 Proof. exact wadd_mod. Qed.
